@@ -581,7 +581,9 @@ func checkMain(args []string) int {
 			confirmed = true
 			detail = "not natively replayable (see level_note)"
 		} else {
+			os.Setenv("VERIF_REPEAT", "25") // code that runs goroutines natively may need several tries
 			outs, err := nativeReplay(&spec, g.Pkg, []*Replay{rp}, overlay)
+			os.Unsetenv("VERIF_REPEAT")
 			if err != nil {
 				detail = "native replay failed to run: " + err.Error()
 			} else {
